@@ -95,6 +95,9 @@ def normalize_helpers(prog, config="default"):
         if f is not None:
             protect.add(f.id)
     done = inline.normalize(prog, protect, config)
+    n = inline.desugar_closures(prog)
+    if n:
+        done = list(done) + ["<%d combinator/closure call sites desugared>" % n]
     return done
 
 
